@@ -491,6 +491,55 @@ func runImport(r *common.Run, sk *sink, caseNo int, rng *rand.Rand, seed int64) 
 		}
 		wit["corruption"] = corruptWhat
 	}
+	// ---- power loss during the import (C16: "... or imported"): on one of the listed hosts the tool
+	// first runs with the power cut right before or right after it rewrites the log store (it runs
+	// to its end on a disk that no longer persists anything). After the reboot the start-up cleanup
+	// and the directory oracle are applied - a snapshot that the log store records must exist,
+	// complete and loadable - and the import is then repeated like an operator would.
+	if !corrupt {
+		// (not on the host that holds the export itself: its disk is the source of the copies)
+		ids := make([]uint64, 0, len(hostOfNew))
+		for id, hi := range hostOfNew {
+			if c.Hosts[hi] != eh {
+				ids = append(ids, id)
+			}
+		}
+		sort.Slice(ids, func(i, j int) bool { return ids[i] < ids[j] })
+		pl := rand.New(rand.NewSource(seed ^ 0x1a907))
+		if len(ids) == 0 {
+			ids = append(ids, 0)
+		}
+		id := ids[pl.Intn(len(ids))]
+		h := c.Hosts[hostOfNew[id]]
+		if id == 0 {
+			h = nil
+		}
+		site := []int32{cluster.ImportSiteBeforeLogStore, cluster.ImportSiteAfterLogStore}[pl.Intn(2)]
+		if h == nil {
+			site = 0
+		}
+		reached := false
+		if h != nil {
+			reached, _ = h.ImportWithPowerLoss(site, func() error {
+				return tools.ImportSnapshot(h.ImportConfig(), srcDir, newMembers, id)
+			})
+		}
+		if reached {
+			sk.Count(fmt.Sprintf("power_loss_during_import_site_%d", site), 1)
+			if err := h.CheckSnapshotDirsOf(shardID, id); err != nil {
+				sk.Violation("C16", "host-does-not-open-after-power-loss-during-import", fmt.Sprintf("host %d: NewNodeHost failed after a power loss during ImportSnapshot: %v", h.Index, err), wit)
+				sk.Violation("C20", "host-does-not-open-after-power-loss-during-import", fmt.Sprintf("host %d: NewNodeHost failed after a power loss during ImportSnapshot: %v", h.Index, err), wit)
+				return
+			}
+		}
+		// the export may have lost its directory entry on that disk
+		if h != nil {
+			if err := copyDir(eh.FS, h.FS, srcDir); err != nil {
+				r.Inconclusive(fmt.Sprintf("case %d: export could not be copied again: %v", caseNo, err))
+				return
+			}
+		}
+	}
 	// ---- the import on every listed host ----
 	refused := 0
 	for id, hi := range hostOfNew {
